@@ -312,7 +312,8 @@ def harness_exit(exc):
     sys.stdout.flush()
     sys.stderr.write('HARNESS-ERROR: %r\n' % (exc,))
     traceback.print_exc()
-    sys.exit(2)
+    sys.stderr.flush()
+    os._exit(2)          # (not sys.exit: a provider thread left running by a broken tree must not block the exit)
 
 
 # ------------------------------------------------------------------------------------------
